@@ -85,6 +85,8 @@ PROPS = {
     'C08': {'gen': ['gen_srcfacts.py'],
             'suites': [{'name': 'evm', 'quick': '-n 150 -ops 30', 'thorough': '-n 3000 -ops 40', 'shards': {'quick': 4, 'thorough': 16}},
                        {'name': 'sigset', 'quick': '-n 150 -ops 40', 'thorough': '-n 1500 -ops 60', 'shards': {'quick': 2, 'thorough': 16}},
+                       # what the relayer assembles comes from the confirmation queries: a recorded confirmation of a pending tx is served
+                       {'name': 'reg', 'quick': '-n 100 -ops 60', 'thorough': '-n 1000 -ops 120', 'shards': {'quick': 2, 'thorough': 16}},
                        # hub side of "in nonce order": a signer set leaves the store only after a higher one was observed as executed
                        {'name': 'sigprune', 'quick': '-n 150 -ops 40', 'thorough': '-n 2000 -ops 80', 'shards': {'quick': 1, 'thorough': 8}},
                        # hub side of "in step": a batch is withdrawn only after its timeout height was observed on its chain
@@ -139,10 +141,12 @@ PROPS = {
     'C05': {'gen': ['gen_iterfacts.py'],
             'suites': [{'name': 'blocks', 'quick': '-n 6 -ops 60 -hostile', 'thorough': '-n 60 -ops 150 -hostile', 'shards': {'quick': 4, 'thorough': 16}},
                        {'name': 'votes', 'quick': '-n 200 -ops 70', 'thorough': '-n 2000 -ops 150', 'shards': {'quick': 2, 'thorough': 8}},
-                       {'name': 'oracle', 'quick': '-n 200 -ops 80', 'thorough': '-n 2000 -ops 160', 'shards': {'quick': 2, 'thorough': 8}}],
+                       {'name': 'oracle', 'quick': '-n 200 -ops 80', 'thorough': '-n 2000 -ops 160', 'shards': {'quick': 2, 'thorough': 8}},
+                       # hostile events (amounts that overflow a conversion, negative fees, unknown tokens): every Begin/EndBlocker returns normally
+                       {'name': 'hub', 'quick': '-n 60 -ops 60 -hostile', 'thorough': '-n 600 -ops 120 -hostile', 'shards': {'quick': 2, 'thorough': 8}}],
             'trusted_base': [
                 'translator bin/gen_iterfacts.py (syntactic; calls are resolved by name inside module/x/mhub2 and module/x/oracle, transitively): regenerates coq/Gen/IterFacts.v on every run: the bodies that run while a store iterator is open '
-                '(callbacks of the keepers\' Iterate* helpers, for-iter.Valid loops) and the calls in them that write to the module store and open another iterator (iter_write_sites, must be empty) or only write (iter_plain_write_sites)',
+                '(callbacks of the keepers\' Iterate* helpers, for-iter.Valid loops; calls through longer selectors and interface fields such as k.ExternalEventProcessor.Handle are resolved by method name, an over-approximation) and the calls in them that write to the module store and open another iterator (iter_write_sites, must be empty) or only write (iter_plain_write_sites)',
                 'lock model (Proofs/C05Proofs.v): the cosmos-sdk cachekv store + tm-db MemDB discipline reduced to: an open iterator may hold the read lock of the dirty-entry index; an iterator opened after a write needs its write lock. '
                 'This reduction is read from cosmos-sdk v0.45.4 store/cachekv and tm-db v0.6.6 memdb (trusted, reproduced by the watchdog runs on the reverted fix and on the seeded change)',
                 'correspondence / runtime half: suite blocks executes hub histories with every block on a cache-wrapped multistore (as deliverState), BeginBlocker/EndBlocker under a 20 s watchdog (code 3 = did not return), hostile amounts and bursts of 60-110 transfers, '
@@ -153,7 +157,9 @@ PROPS = {
                     'or by a 62 s jump so that they expire next to a second burst; every BeginBlocker/EndBlocker on a cache-wrapped multistore under a watchdog. votes / oracle: as for C02/C03 and C18.',
             'assumptions': ['every configured chain id is one of ethereum, bsc, minter, hub and the average block times are non-zero (hypothesis params_ok; an unknown chain id divides by zero in getBatchTimeoutHeight)',
                             'staking powers are non-negative']},
-    'C01': {'suites': hub_suite() + [{'name': 'hub', 'quick': '-n 60 -ops 80 -gov', 'thorough': '-n 500 -ops 120 -gov', 'shards': {'quick': 1, 'thorough': 8}}],
+    'C01': {'suites': hub_suite() + [{'name': 'hub', 'quick': '-n 60 -ops 80 -gov', 'thorough': '-n 500 -ops 120 -gov', 'shards': {'quick': 1, 'thorough': 8}},
+                                     # the clock that decides batch timeouts moves only with attested claims (sub-quorum and conflicting claims, key rotations)
+                                     {'name': 'votesh', 'quick': '-n 100 -ops 60', 'thorough': '-n 1500 -ops 120', 'shards': {'quick': 1, 'thorough': 8}}],
             'trusted_base': HUB_TB + [
                 'external custody is a LEDGER derived from the history (Hub/World.v): a deposit / transfer event stands for a lock of its amount in the chain\'s contract or multisig before it was attested, a batch-executed event for the payout of that batch\'s amounts '
                 '(once per batch; executions the hub dropped are reported separately and not subtracted). That the contract only pays out batches signed by more than the threshold and locks what it reports is C08; that events are attested by 66% and applied in order is C02/C03',
@@ -216,7 +222,10 @@ PROPS = {
     'C19': {'suites': hub_suite(hostile=False), 'trusted_base': HUB_TB, 'rule': HUB_RULE,
             'assumptions': ['prices are inputs (x/oracle: C18); sdk.Dec arithmetic of the reimbursement is modelled (Mul/Quo round half even, QuoInt64/TruncateInt truncate)',
                             'the per-user bound is stated for tokens with at most 18 external decimals (more: known finding)']},
-    'C12': {'suites': hub_suite(hostile=False), 'trusted_base': HUB_TB, 'rule': HUB_RULE,
+    'C12': {'suites': hub_suite(hostile=False) + [
+                # delistings: refunds that cannot be sent back to the originating chain fail on their own and change nothing
+                {'name': 'hub', 'quick': '-n 100 -ops 80 -gov', 'thorough': '-n 800 -ops 120 -gov', 'shards': {'quick': 2, 'thorough': 8}}],
+            'trusted_base': HUB_TB, 'rule': HUB_RULE,
             'assumptions': ['chain ids are prefix-free', 'expiry is decided on whole-millisecond block times (the harness only uses such times)']},
     'C13': {'gen': ['gen_srcfacts.py'], 'suites': hub_suite(hostile=False) + [
                 # the clock of the timeout sweep: the stored external height moves only when the tally applies a claim
